@@ -136,3 +136,9 @@ chk("C16", "model_checking", "E3",
     "For scenarios in which 2-3 species innovate on shared structure in the same epoch (all add-node, all add-link, mixed with mating and interspecies dad, optionally after a warm-up epoch) ALL interleavings of the real ParallelPopulationEpochExecutor.NextEpoch at its synchronisation operations and Population method entries are enumerated with at most 2 (quick) / 3 (thorough) preemptions; on every schedule: no deadlock, panic or livelock, no happens-before race on Population.innovations / nextInnovNum / nextNodeId, no epoch error, exact size and partition, well-formed genomes, innovation ledger. Thread-local random answers keep each thread's data schedule-independent. The same bodies run free under Go's race detector (6 / 60 runs, GOMAXPROCS 2 and 16).",
     "Preemption bound; <= 3 reproduction threads; sequentially consistent interleavings only; race-freedom outside the anchored fields rests on the (not schedule-exhaustive) race-detector pass. Trusts the instrumenter's rewriting of go/chan/sync constructs and the shims.",
     "DESIGN.md section 3 C16")
+
+chk("C17", "model_checking", "E1",
+    "stateless deviation-bounded exploration in which every execution is run twice in-process and the base executions again in a second process; plus seeded runs on the real math/rand repeated in-process and in a second process",
+    "Explorer mode: for every scenario (start genomes incl. one with five disconnected sensors and random populations x configuration rows x landscapes x policies, four node activators) every execution within 1 deviation of the base policy is run twice in the same process (second pass after garbage, forced GC and unrelated evolution); the draw trace (kind and bound of each draw) and the bit-exact population fingerprints after construction and every epoch must agree; replaying recorded answers must meet the same draws; base executions are compared with a fresh process. Real math/rand: 16 (128 thorough) seed x start x configuration runs of 10 epochs repeated in-process under different GOGC / GOMAXPROCS and in a second process.",
+    "Map-iteration order and wall-clock time cannot be enumerated; dependence on them is caught by repetition (2-3 executions of thousands of runs). Bounds as in C02.",
+    "DESIGN.md section 3 C17")
